@@ -132,11 +132,6 @@ def main():
     repo, outdir = sys.argv[1], sys.argv[2]
     root = os.path.dirname(os.path.dirname(os.path.abspath(__file__)))
     a = sequence(body_of(open(os.path.join(repo, "minidump-stackwalk", "src", "main.rs")).read(), "main.rs"), "main.rs")
-    b = sequence(body_of(open(os.path.join(root, "harness", "src", "bin", "c20.rs")).read(), "harness c20.rs"), "harness c20.rs")
-    if a != b:
-        k = next((i for i in range(min(len(a), len(b))) if a[i] != b[i]), min(len(a), len(b)))
-        die("print_minidump_dump of main.rs and its copy in harness/src/bin/c20.rs differ at step %d: main.rs %r, harness %r "
-            "(%d vs %d steps)" % (k, a[k] if k < len(a) else None, b[k] if k < len(b) else None, len(a), len(b)))
     for s in a:
         if '"' in s:
             die("unexpected quote in %r" % s)
@@ -157,6 +152,12 @@ def main():
             pass
         with open(path, "w") as f:
             f.write(content)
+    # the harness's copy (compared AFTER the files are written: the model is regenerated from main.rs whatever the copy says)
+    b = sequence(body_of(open(os.path.join(root, "harness", "src", "bin", "c20.rs")).read(), "harness c20.rs"), "harness c20.rs")
+    if a != b:
+        k = next((i for i in range(min(len(a), len(b))) if a[i] != b[i]), min(len(a), len(b)))
+        die("print_minidump_dump of main.rs and its copy in harness/src/bin/c20.rs differ at step %d: main.rs %r, harness %r "
+            "(%d vs %d steps)" % (k, a[k] if k < len(a) else None, b[k] if k < len(b) else None, len(a), len(b)))
 
 
 main()
